@@ -1,6 +1,6 @@
 (* Extraction of the executable models. ExtrOcamlBasic only: Z/positive/nat stay inductive. *)
 From MVGen Require Import JsTables_gen.
-From MV Require Import Base.MvBytes Num.NumModel Json.JsonModel Json.JsonSpec Dispatch.DispatchModel DataUri.DataUriModel Stream.StreamModel Buf.BufModel Cli.CliModel Cli.ConcatModel Stream.StreamHttp Xml.XmlModel Base.Ws Js.RenameModel.
+From MV Require Import Base.MvBytes Num.NumModel Json.JsonModel Json.JsonSpec Dispatch.DispatchModel DataUri.DataUriModel Stream.StreamModel Buf.BufModel Cli.CliModel Cli.ConcatModel Stream.StreamHttp Xml.XmlModel Base.Ws Js.RenameModel Svg.PathSep.
 Require Extraction.
 Require Import ExtrOcamlBasic.
 Extraction Language OCaml.
@@ -13,4 +13,5 @@ Separate Extraction number0 decimal0 valid_number valid_decimal
   ops_of cr_init cread read_fuel
   serve close_err
   xml_minify escape_attr_val escape_cdata_val collapse
+  emit st_cmd
   get_name rename_program js_identStart_alpha js_identContinue_alpha js_identStart_freq js_identContinue_freq.
